@@ -45,6 +45,10 @@ def target(specs, data, alpha):
     return pi / pi.sum(), lp
 
 
+def _tuplify_spec(x):
+    return tuple(_tuplify_spec(y) for y in x) if isinstance(x, (list, tuple)) else x
+
+
 def _row(args):
     (values, data_op, sizes, spec, cfg) = args
     os.environ.setdefault("OMP_NUM_THREADS", "1")
@@ -76,6 +80,18 @@ def _row(args):
             s = PruneRegraphSampler(td, r)
         else:
             raise ValueError(move)
+        if cfg.get("warm_alpha") is not None and hasattr(s, "_rng"):
+            # the run loop keeps ONE sampler object over the sweeps while the concentration is resampled in place: a few sweeps at
+            # another concentration with an ordinary seeded generator, then the in-place change, then the enumerated call
+            import numpy as _np
+
+            td.prior.alpha = float(cfg["warm_alpha"])
+            s._rng = _np.random.default_rng(cfg.get("warm_seed", 1))
+            for wspec in cfg.get("warm_specs") or [spec]:
+                for _ in range(1 if cfg.get("warm_specs") is None else 2):
+                    s.sample_tree(build_tree(_tuplify_spec(wspec), data))
+            td.prior.alpha = float(cfg["alpha"])
+            s._rng = r
         out = s.sample_tree(tree)
         try:
             return ("ok", abs_spec(out))
